@@ -144,6 +144,15 @@ def load_known() -> list[dict]:
         return json.load(f).get("entries", [])
 
 
+def _write_replay(pid: str, v: Violation) -> str:
+    d = os.path.join(VERIF, "replays", pid)
+    os.makedirs(d, exist_ok=True)
+    path = os.path.join(d, sha(v.signature) + ".json")
+    with open(path, "w") as f:
+        json.dump({"check": pid, **v.to_json()}, f, indent=1, sort_keys=True)
+    return path
+
+
 def finish(ctx: Ctx, replay_fn: Callable[[Ctx, dict], list[Violation]] | None) -> int:
     """Match violations against known findings, confirm new ones by double replay, write artefacts."""
     known = [e for e in load_known() if e.get("property") == ctx.pid and e.get("status") == "known"]
@@ -156,6 +165,7 @@ def finish(ctx: Ctx, replay_fn: Callable[[Ctx, dict], list[Violation]] | None) -
         if k in known_by_sig:
             known_hit += 1
             lines.append(f"KNOWN-FINDING: property={ctx.pid} {known_by_sig[k]['what']}")
+            _write_replay(ctx.pid, v)  # kept up to date so that the listed finding stays replayable
             continue
         # deterministic replay twice before believing it
         if replay_fn is not None:
@@ -172,12 +182,7 @@ def finish(ctx: Ctx, replay_fn: Callable[[Ctx, dict], list[Violation]] | None) -
                 raise
             except Exception as e:  # the replay function itself crashed
                 raise HarnessError(f"replay of {v.signature} crashed: {e!r}\n{traceback.format_exc()}")
-        d = os.path.join(VERIF, "replays", ctx.pid)
-        os.makedirs(d, exist_ok=True)
-        body = {"check": ctx.pid, **v.to_json()}
-        path = os.path.join(d, sha(v.signature) + ".json")
-        with open(path, "w") as f:
-            json.dump(body, f, indent=1, sort_keys=True)
+        path = _write_replay(ctx.pid, v)
         lines.append(f"VIOLATION property={ctx.pid} replay={path}")
         lines.append(f"  signature={json.dumps(v.signature, sort_keys=True)}")
         lines.append(f"  {v.message[:600]}")
